@@ -15,6 +15,8 @@
 //   sync.Cond fields: `x.cond.Wait()` → vsched.CondWait(x.cond,"cond") with the two sites
 //   Wait:cond (enqueue + unlock) and Wake:cond (signalled + relock); `x.cond.Signal()` →
 //   Signal:cond; `x.cond.Broadcast()` → Broadcast:cond.
+//   With -syncmap (opt-in, off by default): every method call on a sync.Map field is a point
+//   `Map<Method>:<field>` (e.g. `m.senders.Load(k)` → MapLoad:senders, CompareAndDelete → MapCompareAndDelete:senders).
 package main
 
 import (
@@ -49,6 +51,10 @@ var (
 	mutexFields  = map[string]string{}
 	// field name -> "Mutex" | "RWMutex" | "*Mutex" | "*RWMutex" | "ambiguous"
 	condFields = map[string]string{} // field name -> "Cond" | "*Cond"
+	mapFields  = map[string]bool{}   // field names of type sync.Map / *sync.Map
+	syncMapOn  bool                  // -syncmap: sync.Map method calls are points
+	mapMethods = map[string]bool{"Load": true, "Store": true, "LoadOrStore": true, "LoadAndDelete": true, "Delete": true,
+		"Swap": true, "CompareAndSwap": true, "CompareAndDelete": true, "Range": true, "Clear": true}
 )
 
 func collectFields(dir string) {
@@ -98,6 +104,8 @@ func classify(name, t string) {
 		} else {
 			setMutex(name, "RWMutex")
 		}
+	case tt == "sync.Map":
+		mapFields[name] = true
 	case tt == "sync.Cond":
 		if strings.HasPrefix(t, "*") {
 			condFields[name] = "*Cond"
@@ -178,6 +186,11 @@ func atomicLabels(n ast.Node) []string {
 			if k := kindOf(sel.Sel.Name); k != "" && len(call.Args) >= 1 {
 				out = append(out, k+":"+lastName(call.Args[0]))
 			}
+			return true
+		}
+		// -syncmap: x.f.M(...) on a sync.Map field
+		if syncMapOn && mapMethods[sel.Sel.Name] && mapFields[lastName(sel.X)] && !atomicFields[lastName(sel.X)] {
+			out = append(out, "Map"+sel.Sel.Name+":"+lastName(sel.X))
 			return true
 		}
 		// x.f.Load() etc. on a known atomic field
@@ -508,6 +521,8 @@ func main() {
 			for _, f := range strings.Split(os.Args[i], ",") {
 				only[f] = true
 			}
+		case "-syncmap":
+			syncMapOn = true
 		case "-entry":
 			i++
 			for _, f := range strings.Split(os.Args[i], ",") {
